@@ -245,7 +245,8 @@ def piped(F, ch, ctx, S, node, values, desc, pingpong):
     ctx.evals += k
     ctx.steps += sc.step
     ctx.fault("preempt", len(sc.switches))
-    ctx.ev("pipe", sc.signature(), sc.step, state["w_bounds"])
+    ctx.ev("pipe", state["w_bounds"])
+    ctx.ev_sched("pipe", sc.signature(), sc.step)
     ctx.sample = dict(desc, **info, switches=len(sc.switches), bounds=state["w_bounds"])
     if pipe.total_written:
         ctx.key("pipe", json.dumps(desc, sort_keys=True, default=str), info["mode"], cap, sc.signature())
